@@ -1,6 +1,7 @@
 package props
 
 import (
+	"regexp"
 	"fmt"
 	"github.com/robfig/soy"
 	"github.com/robfig/soy/template"
@@ -23,13 +24,23 @@ var c10Vars = []string{"name", "setName", "labsUrl", "count", "x", "userId", "a"
 	// runs of underscores, leading and trailing ones, words of one and two letters, capitals in a row, digits inside
 	"first___name", "a__b", "_lead", "trail_", "__x__y1z_", "isAtEnd", "toIdOf", "aBCd", "HTTPServer", "x2y", "UPPER_CASE", "camelCASEMix", "v12b3"}
 
+// c10Var draws half of the names from a few thousand distinct identifiers: one process names placeholders after far
+// more identifiers than any table of them is made for, and keeps coming back to the first ones.
+func c10Var(r *fw.Rand) string {
+	if r.P(2, 3) {
+		n := r.Intn(3000)
+		return fmt.Sprintf([]string{"formField%dLabel", "account%dOwner", "item_%d_id", "fld%d", "x%dY"}[n%5], n)
+	}
+	return c10Vars[r.Intn(len(c10Vars))]
+}
+
 func c10Expr(r *fw.Rand) ref.Expr {
-	v := c10Vars[r.Intn(len(c10Vars))]
+	v := c10Var(r)
 	switch r.Intn(10) {
 	case 0, 1, 2:
 		return &ref.DataRef{Name: v}
 	case 3, 4:
-		return &ref.DataRef{Name: v, Acc: []ref.Acc{{Kind: 0, Key: c10Vars[r.Intn(len(c10Vars))]}}}
+		return &ref.DataRef{Name: v, Acc: []ref.Acc{{Kind: 0, Key: c10Var(r)}}}
 	case 5:
 		return &ref.DataRef{Name: v, Acc: []ref.Acc{{Kind: 0, Key: "inner"}, {Kind: 0, Key: c10Vars[r.Intn(len(c10Vars))], NullSafe: r.Bool()}}}
 	case 6:
@@ -51,6 +62,9 @@ func c10Text(r *fw.Rand) string {
 	n := r.Intn(30)
 	if r.P(1, 4) {
 		n = 10 + r.Intn(6) // around the 12-byte block boundary
+	}
+	if r.P(1, 25) {
+		n = []int{250, 1000, 1020, 1030, 2050, 4100}[r.Intn(6)] + r.Intn(12) // longer than a buffer is likely to be
 	}
 	const alpha = "abcdefghijklmnopqrstuvwxyz ABC.,!?:;-_'\"&%$#@()[]=+*0123456789éü中"
 	rs := []rune(alpha)
@@ -146,17 +160,8 @@ func c10Msg(r *fw.Rand) *ref.Msg {
 // c10File wraps messages in a compilable file. Every variable any message can use is declared and used.
 func c10File(msgs []*ref.Msg, wrap int) string {
 	var b strings.Builder
-	b.WriteString("{namespace m}\n/**\n")
 	all := append([]string{}, c10Vars...)
 	all = append(all, "x_1", "x_2", "c")
-	for _, v := range all {
-		b.WriteString(" * @param? " + v + "\n")
-	}
-	b.WriteString(" */\n{template .t}\n")
-	for _, v := range all {
-		b.WriteString("{isNonnull($" + v + ")}")
-	}
-	b.WriteString("\n")
 	w := &strings.Builder{}
 	for i, m := range msgs {
 		t := &ref.Template{Name: "x", Body: []ref.Node{m}}
@@ -190,10 +195,39 @@ func c10File(msgs []*ref.Msg, wrap int) string {
 		}
 		w.WriteString(s + "\n")
 	}
+	// the names drawn from the large family are declared like the others
+	declared := map[string]bool{"q": true, "i": true, "ij": true}
+	for _, v := range all {
+		declared[v] = true
+	}
+	for _, m := range c10VarRe.FindAllStringSubmatch(w.String(), -1) {
+		if !declared[m[1]] && !c10LocalRe.MatchString(m[1]) {
+			declared[m[1]] = true
+			all = append(all, m[1])
+		}
+	}
+	b.WriteString("{namespace m}\n/**\n")
+	for _, v := range all {
+		b.WriteString(" * @param? " + v + "\n")
+	}
+	b.WriteString(" */\n{template .t}\n")
+	for _, v := range all {
+		b.WriteString("{isNonnull($" + v + ")}")
+	}
+	b.WriteString("\n")
 	b.WriteString(w.String())
 	b.WriteString("{/template}\n/** @param? p */\n{template .callee}callee{$p ?: ''}{/template}\n")
 	return b.String()
 }
+
+var c10PhRe = regexp.MustCompile(`\{([A-Z0-9_]+)\}`)
+
+// c10Unbraced is what the official algorithm fingerprints for a message without a plural: the text with placeholder
+// names in place of the placeholders, without the braces.
+func c10Unbraced(phstr string) string { return c10PhRe.ReplaceAllString(phstr, "$1") }
+
+var c10VarRe = regexp.MustCompile(`\$([A-Za-z_][A-Za-z0-9_]*)`)
+var c10LocalRe = regexp.MustCompile(`^w[0-9]+$`)
 
 type c10Obs struct {
 	id    uint64
@@ -373,9 +407,11 @@ func init() {
 				if before.PhString == after.PhString && kind != 1 {
 					continue // the change did not alter the message content after all (e.g. equal placeholders swapped)
 				}
-				if before.ID == after.ID && !before.Ambiguous && !after.Ambiguous {
+				if before.ID == after.ID {
 					// the official algorithm itself gives both contents one id: outside plurals it fingerprints placeholder
-					// names without braces, so "{$b}B" and "B{$b}" are both "BB". An id that follows it cannot differ here.
+					// names without braces, so "{$b}B" and "B{$b}" are both "BB", and {X}{XXX} and {XXX}{X} are both XXXX. An id that
+					// follows it cannot differ here (also where the numbering of same-named placeholders is not pinned down: a
+					// collision under one legitimate numbering is enough not to demand a difference).
 					ctx.Obs("official_algorithm_collisions", 1)
 					continue
 				}
@@ -385,6 +421,12 @@ func init() {
 				}
 				ctx.Obs("content_changes", 1)
 				ctx.Cell("change:" + what)
+				if obs[0].id == base[0].id && !strings.Contains(base[0].phstr, ",plural,") && c10Unbraced(obs[0].phstr) == c10Unbraced(base[0].phstr) {
+					// (the same collision of the official algorithm, seen from the library's own placeholder strings: where
+					// the reference numbers same-named placeholders differently it cannot vouch for it)
+					ctx.Obs("official_algorithm_collisions", 1)
+					continue
+				}
 				if obs[0].id == base[0].id {
 					return fw.Result{Verdict: fw.Violated, Key: "id-insensitive:" + strings.Fields(what)[0], Case: map[string]string{"before": src, "after": c10File([]*ref.Msg{m3}, 0)},
 						Msg: fmt.Sprintf("%s but the id stayed %d (%q -> %q)", what, base[0].id, base[0].phstr, obs[0].phstr)}
